@@ -909,3 +909,28 @@ package webrtc
 //@ trusted
 //@ props C03
 //@ ensures err == nil
+
+// ---------------------------------------------------------------- C01 (getters)
+// LocalDescription is the pending local description whenever there is one (the getters hand
+// out copies with the gathered candidates added, so this is stated through nil-ness: with a
+// pending local description LocalDescription never answers nil, and the pending / current
+// getters answer nil exactly when there is no such description).
+//@ func populateLocalCandidates
+//@ props C01
+//@ nosafety
+//@ ensures (result == nil) == (sessionDescription == nil)
+//@ func (*PeerConnection).PendingLocalDescription
+//@ props C01
+//@ nosafety
+//@ requires pc != nil
+//@ ensures (result == nil) == (old(pc.pendingLocalDescription) == nil)
+//@ func (*PeerConnection).CurrentLocalDescription
+//@ props C01
+//@ nosafety
+//@ requires pc != nil
+//@ ensures (result == nil) == (old(pc.currentLocalDescription) == nil)
+//@ func (*PeerConnection).LocalDescription
+//@ props C01
+//@ nosafety
+//@ requires pc != nil
+//@ ensures old(pc.pendingLocalDescription) != nil ==> result != nil
